@@ -244,6 +244,13 @@ func walkString(s string, f func(i int, p lsp.Position) bool) {
 	lastCR := false
 
 	for i, r := range s {
+		if r == '\n' && lastCR {
+			// The \n of a \r\n sequence is part of the same line break: the
+			// index between the two doesn't get a position of its own, so that
+			// the start of the next line maps to the index after the \n.
+			lastCR = false
+			continue
+		}
 		if !f(i, p) {
 			return
 		}
@@ -252,12 +259,8 @@ func walkString(s string, f func(i int, p lsp.Position) bool) {
 			p.Line++
 			p.Character = 0
 		case r == '\n':
-			if lastCR {
-				// Ignore \n if it's part of a \r\n sequence
-			} else {
-				p.Line++
-				p.Character = 0
-			}
+			p.Line++
+			p.Character = 0
 		case r <= 0xFFFF:
 			// Encoded in UTF-16 with one unit
 			p.Character++
